@@ -79,6 +79,15 @@ def build_overlay(cfg, work):
             raise SystemExit(2)
         m = json.loads(r.stdout)
         replace.update(m)
+        # x/sync/semaphore instrumented from its real source becomes the virtual package zzverif/vsem
+        r = subprocess.run(["go", "list", "-m", "-f", "{{.Dir}}", "golang.org/x/sync"], cwd=REPO, env=GOENV,
+                           capture_output=True, text=True)
+        sem = os.path.join(r.stdout.strip(), "semaphore", "semaphore.go")
+        r = subprocess.run([tool, "-repo", REPO, "-out", idir, "-mod", MOD, sem], env=GOENV, capture_output=True, text=True)
+        if r.returncode != 0:
+            log(r.stdout, r.stderr)
+            raise SystemExit(2)
+        replace[os.path.join(REPO, "zzverif", "vsem", "semaphore.go")] = list(json.loads(r.stdout).values())[0]
     ov = os.path.join(work, "overlay.json")
     with open(ov, "w") as f:
         json.dump({"Replace": replace}, f, indent=1)
